@@ -49,7 +49,14 @@ where
   type Unsub = ();
 
   fn actual_subscribe(self, mut observer: O) -> Self::Unsub {
-    self.0.into_iter().for_each(|v| observer.next(v));
+    // stop pulling as soon as the observer no longer wants items
+    let mut iter = self.0.into_iter();
+    while !observer.is_finished() {
+      match iter.next() {
+        Some(v) => observer.next(v),
+        None => break,
+      }
+    }
     observer.complete();
   }
 }
